@@ -312,8 +312,11 @@ def oracle (st : St) (dg : Bytes) (io : ImplOut) (full : Bool) : Option String :
     match changed.find? (fun (o, _) => isSecure o && !authentic o) with
     | some (o, _) => some s!"state of secure session #{o} changed by a datagram that is not authentic for it"
     | none =>
-    -- (3) the group counter store is consulted only for an authentic group message
-    if io.gSum.isSome && !gauth then some "group counter store changed by a datagram that is no authentic group message" else
+    -- (3) the group counter store is consulted only for an authentic group message (one that is
+    --     authentic under a key mapped to the addressed group, or for a live group session of its sender)
+    let grpSessAuth := old.any fun (o, _) =>
+      match declOf o with | some s => s.isGroup && authenticForB st.tbl s dg | none => false
+    if io.gSum.isSome && !gauth && !grpSessAuth then some "group counter store changed by a datagram that is no authentic group message" else
     -- (4) a session comes into existence only for an authentic group message or an unsecured datagram
     if !created.isEmpty && claimsSecure && !gauth then some "a session was created by a secured datagram that is no authentic group message" else
     -- (5) a datagram that is authentic for nothing makes the node send at most an unsecured SessionNotFound
@@ -343,6 +346,10 @@ def oracle (st : St) (dg : Bytes) (io : ImplOut) (full : Bool) : Option String :
         else
         if !isSecure o then none else
         if !authentic o then some s!"handed to secure session #{o} although not authentic for it" else
+        -- a group data message that reaches an ephemeral group session (one the node created for an
+        -- earlier message of the sender) must still be authentic under a key mapped to the group it addresses
+        if pl.isGroup && !pl.isControl && !st.installed.contains o && !gauth then
+          some s!"group data message handed on through session #{o} although no key mapped to the addressed group authenticates it" else
         match declOf o with
         | some s =>
           -- over a reliable transport the R and A flags are lowered on receipt (`adjust_reliability`)
